@@ -64,6 +64,46 @@ pub fn check_commit_trace(rf: &RefOutput, out: &GrevmOutput, n_txs: usize) -> Re
     // (iv) a validation that predates a rewind covering its transaction never reaches finality:
     // largest timestamp of a completed rewind to an index <= i
     let mut rewinds: Vec<(usize, usize)> = Vec::new();
+    // mechanism-free form of the same clause, on log order only: between the start of the validation
+    // that is accepted for transaction i and the moment i becomes final, nobody may have requested
+    // a validation rewind to an index <= i
+    let n_txs_bound = n_txs;
+    let mut val_start: std::collections::HashMap<(usize, usize), usize> = Default::default(); // (txid, inc) -> log position of the latest start
+    let mut accepted: std::collections::HashMap<usize, usize> = Default::default(); // txid -> position of the start of its latest successful validation
+    let mut requests: Vec<(usize, usize, usize)> = Vec::new(); // (position, index, by_tx)
+    for (pos, l) in out.log.iter().enumerate() {
+        match &l.ev {
+            Ev::ValidationStart { txid, incarnation, .. } => {
+                val_start.insert((*txid, *incarnation), pos);
+            }
+            Ev::ValidationEnd { txid, incarnation, conflict, .. } => {
+                if *conflict {
+                    accepted.remove(txid);
+                } else if let Some(p) = val_start.get(&(*txid, *incarnation)) {
+                    accepted.insert(*txid, *p);
+                }
+            }
+            Ev::AttemptStart { txid, .. } => {
+                accepted.remove(txid);
+            }
+            Ev::RewindRequest { index, by_tx } => {
+                if *index < n_txs_bound {
+                    requests.push((pos, *index, *by_tx));
+                }
+            }
+            Ev::Finality { txid, incarnation, .. } => {
+                if let Some(p) = accepted.get(txid) {
+                    if let Some((q, j, by)) = requests.iter().find(|(q, j, _)| q > p && j <= txid) {
+                        let _ = q;
+                        return Err(format!(
+                            "stale validation finalised: transaction {txid} (incarnation {incarnation}) became final on a validation that started before transaction {by} requested a validation rewind to index {j}, which covers it"
+                        ));
+                    }
+                }
+            }
+            _ => {}
+        }
+    }
     for l in &out.log {
         match &l.ev {
             Ev::Rewind { index, ts, .. } => rewinds.push((*index, *ts)),
